@@ -744,8 +744,13 @@ class Prop:
         "real-thread cases wait a bounded time (0.12 s) for a reader that must NOT finish: this can miss a violation, never invent one",
     ]
     trusted = [
-        "C18: the ast walk that lifts lock skeletons (gen_facts.lock_skeleton: which attributes count as structure reads, taint of "
-        "derived names) and the recording instrumentation of harness/props/C18.py",
+        "C18: the ast walk that lifts lock skeletons (gen_facts.lock_skeleton): the whitelists of structural attributes, of "
+        "materialising builtins, of detaching (to_dict) and non-retaining (_add_from) methods, and its taint rules - every store of a "
+        "live (possibly lazy) view taints the name it is reachable from (names, tuple/starred/walrus targets, the base of "
+        "attribute/subscript/augmented targets, receivers of calls given a live argument), results of calls given a live argument "
+        "are live, `return` of a live view inside the bracket, yield/await, global/nonlocal and stores through the tree object are "
+        "refused; self-tested on 33 escaping and 9 materialising synthetic methods (harness/test_gen_facts_lock.py, run by every "
+        "check) - and the recording instrumentation of harness/props/C18.py",
     ]
     manifest = dict(
         text=("Machine-checked theorems (Coq 8.16, no axioms) about a lock machine (threads = lists of Acq/Rel/Read/Write, state = owner, "
@@ -791,6 +796,10 @@ class Prop:
                     continue
                 for nw1, nw2 in parks:
                     yield dict(k="park", typed=typed, op=op, shape="mixed" if (nw1, nw2) == (1, 1) else "chain", nw1=nw1, nw2=nw2)
+        # self-tests of the lock-skeleton extractor (harness/test_gen_facts_lock.py): lazy views that survive the block
+        import test_gen_facts_lock as TL
+        for name in list(TL.BAD) + list(TL.GOOD):
+            yield dict(k="extractor", shape=name)
         # an operation raised / was refused (the caller caught it); then ANOTHER thread uses the tree
         for typed in (False, True):
             for op in RAISING_OPS:
@@ -864,6 +873,8 @@ class Prop:
         k = desc["k"]
         if k == "sched":
             return self.run_sched(desc)
+        if k == "extractor":
+            return self.run_extractor(desc)
         # a real-thread scenario that FAILED may have left threads stuck for ever (holding a class-level lock,
         # say): running it again in this process observes the debris, not the scenario.  The first failing
         # verdict is kept for the rest of the process; `--replay` (a fresh process) runs it afresh.
@@ -894,6 +905,26 @@ class Prop:
         finally:
             shutil.rmtree(tmp, ignore_errors=True)
         raise ValueError(k)
+
+    # --- extractor: the trusted lexical walk of gen_facts, on synthetic methods (audit finding C18/1)
+    def run_extractor(self, desc):
+        import test_gen_facts_lock as TL
+
+        name = desc["shape"]
+        ok, outcome, paths = TL.check(name)
+        bad = name in TL.BAD
+        flat = [[{"A": A, "L": L, "R": R}[e] for e in p if isinstance(e, str)] for p in (paths or [])]
+        # the path shown to the model: an unbracketed one for a BAD shape, the first one otherwise
+        tr = next((p for p in flat if not py_bracketed(p)), flat[0] if flat else []) if bad else (flat[0] if flat else [])
+        fail = None
+        if not ok:
+            fail = (f"extractor: gen_facts.lock_skeleton on the synthetic method `{name}` "
+                    + ("lifts a bracketed skeleton although a lazy view of the tree is consumed after the release"
+                       if bad else f"does not lift the bracketed skeleton of a materialising method ({outcome})"))
+        coq = f"CTrace {H.coq_text('exc:extractor')} {H.coq_list(str(e) for e in tr)}"
+        return Case(desc=desc, coq_input=coq, impl_obs=trace_obs(tr, member=False), oracle_fail=fail, nontrivial=bool(paths),
+                    key=H.digest(desc), stats=dict(kind="extractor", expected="unbracketed-or-refused" if bad else "bracketed",
+                                                   outcome=outcome.split(":")[0]))
 
     # --- sched
     def run_sched(self, desc):
